@@ -83,6 +83,8 @@ class Runner:
             if isinstance(r, Result) and r.timed_out:      # alone, with the long timeout, before calling it a hang
                 self.nretry += 1
                 r2 = run_one(self.exe, cases[i][0], cases[i][1], self.env, self.timeout2, self.cwd)
+                if r2.timed_out:     # busy machine: one more solitary attempt with five times the limit
+                    r2 = run_one(self.exe, cases[i][0], cases[i][1], self.env, 5 * self.timeout2, self.cwd)
                 res[i] = self.post(cases[i][0], cases[i][1], r2) if self.post else r2
         return res
 
